@@ -65,7 +65,7 @@ def respond(fullname, beh, payload):
     if beh == 'hugeint':
         return '{"n": ' + '7' * 5000 + '}'
     if beh == 'raise':
-        raise FixtureError('fixture parser failure')
+        raise FixtureError("fixture parser failure: unexpected record {'id': 7, 'len': 3} {} {0} %s %d 100% {")
     if beh == 'importerror':
         raise ImportError('fixture parser needs a module that is not installed')
     if beh == 'keyerror':
@@ -112,7 +112,7 @@ class _Loader(importlib.abc.Loader):
             beh = BEHAVIOUR.get(name, 'obj')
             if beh == 'by-payload':
                 if procedure.startswith('RAISE'):
-                    raise FixtureError('fixture callouts failure')
+                    raise FixtureError("fixture callouts failure: {'proc': %r} {} %s {" % procedure)
                 if procedure.startswith('IMPERR'):
                     raise ImportError('fixture callouts parser needs a module that is not installed')
                 if procedure.startswith('NONE'):
